@@ -70,6 +70,14 @@ pub fn dist(a: &[u8; 32], b: &[u8; 32]) -> u64 {
     log2_idx(a, b).map(|i| i as u64 + 1).unwrap_or(0)
 }
 
+pub fn xor_dist(a: &[u8; 32], b: &[u8; 32]) -> [u8; 32] {
+    let mut d = [0u8; 32];
+    for i in 0..32 {
+        d[i] = a[i] ^ b[i];
+    }
+    d
+}
+
 /// Finds a key seed `base*8192 + i` whose node id satisfies `pred`.
 pub fn mine(base: u64, pred: impl Fn(&[u8; 32]) -> bool) -> Option<u64> {
     for i in 0..8192u64 {
@@ -1052,7 +1060,10 @@ impl ServiceRunner {
                     s.push_str(&format!("\n!MON C09 lookup-ended-without-handing-over-a-result outcome={}", r));
                 }
                 // C10: a lookup for at most k nodes returns at most k
-                if let (Some(k), Some(n)) = (inst.query_k, r.strip_prefix("ok:").and_then(|n| n.parse::<usize>().ok())) {
+                if r.ends_with(":unsorted") {
+                    s.push_str("\n!MON C10 lookup-result-not-in-increasing-distance-to-the-target");
+                }
+                if let (Some(k), Some(n)) = (inst.query_k, r.strip_prefix("ok:").and_then(|n| n.split(':').next().unwrap_or("").parse::<usize>().ok())) {
                     if n > k {
                         s.push_str(&format!("\n!MON C10 lookup-returned-more-than-asked-for got={} k={}", n, k));
                     }
@@ -1220,6 +1231,18 @@ impl ServiceRunner {
             return so;
         }
         stats.bump("s.c11.nodes-packets");
+        // a ban hits the party that misbehaved - the node id it proved and the address it sent from -,
+        // never an address that party merely claims (in its record)
+        for ip in &so.bans_ip {
+            if *ip != from.socket_addr.ip() {
+                out.push(format!("!MON C11 address-banned-that-the-responder-did-not-send-from banned={} responder={}", ip, from.socket_addr.ip()));
+            }
+        }
+        for nid in &so.bans_node {
+            if nid.raw() != from.node_id.raw() {
+                out.push(format!("!MON C11 node-banned-that-did-not-respond banned={}", id8(&nid.raw())));
+            }
+        }
         // bans
         if conforming && banned {
             out.push(format!(
@@ -1861,7 +1884,12 @@ impl Runner for ServiceRunner {
                 if k.is_some() { stats.bump("s.predicate-queries"); }
                 let h = self.rt.as_ref().unwrap().spawn(async move {
                     match fut.await {
-                        Ok(v) => format!("ok:{}", v.len()),
+                        Ok(v) => {
+                            // the result comes in increasing distance to the target, no node twice
+                            let ds: Vec<[u8; 32]> = v.iter().map(|e| xor_dist(&e.node_id().raw(), &tg)).collect();
+                            let sorted = ds.windows(2).all(|w| w[0] < w[1]);
+                            format!("ok:{}{}", v.len(), if sorted { "" } else { ":unsorted" })
+                        }
                         Err(_) => "err".to_string(),
                     }
                 });
@@ -2464,7 +2492,13 @@ fn gen_c14(rng: &mut Rng, ops: &mut Vec<String>, stats: &mut Stats) {
             }
         } else { addr };
         if rng.chance(1, 5) {
-            ops.push(format!("sreq A k{} {} {} ping {}", requester, addr, rid_tok(rng), rng.range(0, 5)));
+            let seq = rng.range(0, 5);
+            ops.push(format!("sreq A k{} {} {} ping {}", requester, addr, rid_tok(rng), seq));
+            if rng.chance(1, 3) {
+                // the same peer pings again (announcing a still newer record) before the service's own
+                // record request to it has been answered: it gets its PONG all the same
+                ops.push(format!("sreq A k{} {} {} ping {}", requester, addr, rid_tok(rng), seq + rng.range(0, 2)));
+            }
             continue;
         }
         let ds: Vec<u64> = match rng.below(12) {
